@@ -43,8 +43,8 @@ def observe_dag(d):
     rec = {"kind": "zxdag", "c": EMPTY_C, "zx": d, "dag": EMPTY_ZX, "exc": ""}
     try:
         rec["dag"] = qadapt.proj_zx(qadapt.zx_diagram(d).dagger())
-    except qadapt.NotOnGrid as e:
-        raise core.Machinery("off-grid value in a ZX dagger: %s" % e)
+    except qadapt.NotOnGrid:
+        rec["exc"] = "ValueOffTheGrid"      # every input is on the grid and so is its conjugate: an off-grid adjoint is wrong
     except Exception as e:
         rec["exc"] = type(e).__name__
     return rec
